@@ -5,7 +5,8 @@ Each mutant is a small text edit of a scratch copy of /repo (never /repo itself)
 property checks must exit 1 (VIOLATION).  A surviving mutant is a weakness of the contracts.
 usage: selftest/mutants.py [name-substring ...]
 """
-import os, shutil, subprocess, sys, tempfile, json
+import os, shutil, subprocess, sys, tempfile, json, functools
+print = functools.partial(print, flush=True)
 
 HERE = os.path.dirname(os.path.dirname(os.path.abspath(__file__)))
 REPO = os.environ.get('GECS_REPO', '/repo')
